@@ -11,9 +11,8 @@
  *   %[0][w]u/lu/zu : decimal numeral of the value, at least w characters, padded on the left with '0' (flag 0) or ' '
  *   %s             : the characters of the NUL-terminated argument (model limit: at most 2 characters -- "0" / "" are what the code passes)
  *   %.Pf / %.*lf   : "[0-9]+" if P == 0 else "[0-9]+ '.' [0-9]{P}"; a negative P given through '*' counts as omitted (= 6);
- *                    the number of integer digits D is that of the value rounded at P decimals: D == 1 for v < 9.5,
- *                    D == 2 for 10 <= v < 99.5, D >= 3 for v >= 100, either neighbour in the rounding windows [9.5,10) / [99.5,100)
- *                    (model limit: 0 <= v <= 1e20, not NaN)
+ *                    the number of integer digits D is that of the value rounded at P decimals: D == 1 below 10 - 0.5*10^-P,
+ *                    D == 2 from there up to 100 - 0.5*10^-P, D >= 3 above (details at c18_put_double; model limit: 0 <= v <= 1e20, not NaN)
  * std::string::at(i) throws std::out_of_range iff i >= size() (C++ [string.access]).
  */
 #ifndef STUBS_C18_TEXT_H
@@ -67,11 +66,13 @@ extern double g_ratio_val;
 
 /* IEEE-754 binary64 division of two converted 64-bit unsigned integers.  The body is the division itself; the contract (the
  * range facts the callers' proofs need: the quotient is a number in [0, 2^64]; a numerator below 60 * 10^6 divided by 10^6
- * gives a double below 60) is PROVED on that body by its own obligation group and then used in place of the divider. */
+ * gives a double below 60, one of at least 10^7 a double >= 10, one below 9.5 * 10^6 a double < 9.5) is PROVED on that body by its own obligation group and then used in place of the divider. */
 double c18_fdiv(uint64_t num, uint64_t den)
 __CPROVER_requires(1)
 __CPROVER_ensures(den != 0 ==> (__CPROVER_return_value >= 0.0 && __CPROVER_return_value <= 18446744073709551616.0))
 __CPROVER_ensures((den == 1000000 && num < 60000000) ==> __CPROVER_return_value < 60.0)
+__CPROVER_ensures((den == 1000000 && num >= 10000000) ==> __CPROVER_return_value >= 10.0)
+__CPROVER_ensures((den == 1000000 && num < 9500000) ==> __CPROVER_return_value < 9.5)
 __CPROVER_assigns()
 {
   return (double)num / (double)den;
@@ -217,10 +218,19 @@ static inline void c18_put_double(c18_text* t, int prec, double v)
   if (prec < 0) prec = 6;
   unsigned d = nondet_c18_unsigned();
   __CPROVER_assume(d >= 1 && d <= 21);
-  __CPROVER_assume(!(v < 9.5) || d == 1);
-  __CPROVER_assume(!(v >= 10.0) || d >= 2);
-  __CPROVER_assume(!(v < 99.5) || d <= 2);
-  __CPROVER_assume(!(v >= 100.0) || d >= 3);
+  /* D follows the value rounded at prec decimals: it grows at 10 - 0.5 * 10^-prec (and 100 - ...).  prec == 0: the threshold is a
+   * double and an exact tie rounds to the even neighbour 10 / 100; prec 1..6: the threshold is not a double, a value equal to its
+   * nearest double may go either way; prec > 6: either neighbour inside [9.99999995, 10) */
+  double c10 = prec == 0 ? 9.5 : prec == 1 ? 9.95 : prec == 2 ? 9.995 : prec == 3 ? 9.9995 : prec == 4 ? 9.99995 : prec == 5 ? 9.999995 :
+               prec == 6 ? 9.9999995 : 9.99999995;
+  double c100 = prec == 0 ? 99.5 : prec == 1 ? 99.95 : prec == 2 ? 99.995 : prec == 3 ? 99.9995 : prec == 4 ? 99.99995 : prec == 5 ? 99.999995 :
+                prec == 6 ? 99.9999995 : 99.99999995;
+  bool above10 = prec == 0 ? v >= c10 : prec <= 6 ? v > c10 : v >= 10.0;
+  bool above100 = prec == 0 ? v >= c100 : prec <= 6 ? v > c100 : v >= 100.0;
+  __CPROVER_assume(!(v < c10) || d == 1);
+  __CPROVER_assume(!above10 || d >= 2);
+  __CPROVER_assume(!(v < c100) || d <= 2);
+  __CPROVER_assume(!above100 || d >= 3);
   c18_dbl(t, prec, d, v, g_ratio_calls >= 1 && v == g_ratio_val, g_ratio_num, g_ratio_den);
 }
 #define C18_IS_ONE_DBL(t) ((t)->ntok == 1 && (t)->ndbl == 1)
